@@ -3,6 +3,7 @@ import PartituraModel.Model.Transpose
 import PartituraModel.Model.RomanRoot
 import PartituraModel.Model.TransposeHeap
 import PartituraModel.Model.LocalKey
+import PartituraModel.Model.TransposeCall
 
 open Wire Model
 
@@ -63,10 +64,34 @@ def handle (ts : List String) : String :=
   | "rn" :: rest =>   -- RomanNumeral(inversion, local_key, primary, secondary, quality): (root, bass_note) | - (not computed)
     orErr <| (run (do let i ← nat; let lk ← str; let p ← str; let s ← str; let q ← str; pure (i, lk, p, s, q)) rest).bind
       fun (i, lk, p, s, q) => (romanRootBass i lk p s q).map fun r => fmtOpt (fun (x : String × String) => fmtTuple [x.1, x.2]) r
-  | "th" :: rest =>   -- transpose on a heap: quality number dir root cells; answers the returned address and the heap after
-    orErr <| (run (do let q ← str; let n ← nat; let d ← parseDir; let r ← nat; let cells ← list parseCell
-                      pure (q, n, d, r, cells)) rest).bind fun (q, n, d, r, cells) =>
-      (TH.transpose cells r ⟨q, n, d⟩).map fun (h', r') => fmtTuple [fmtNat r', fmtList fmtCell h']
+  | "th" :: rest =>   -- transpose(arg, Interval(number, quality, direction)) on a heap: quality number direction root cells;
+                      -- answers the returned address and the heap after (err: the constructor or a note raised)
+    orErr <| (run (do let q ← str; let n ← int; let d ← str; let r ← nat; let cells ← list parseCell
+                      pure (q, n, d, r, cells)) rest).map fun (q, n, d, r, cells) =>
+      match TH.transposeCallRun cells r n q d with
+      | (h', some r') => fmtTuple [fmtNat r', fmtList fmtCell h']
+      | (h', none) => fmtTuple ["err", fmtList fmtCell (h'.take cells.length)]   -- raised: the argument's cells after the raise
+  | "ivn" :: rest =>  -- Interval(number, quality, direction) then _transpose_note_inplace on one note:
+                      -- number quality direction step alter|- octave; answers A (AssertionError) | K (KeyError) | spelling
+    orErr <| (run (do let n ← int; let q ← str; let d ← str; let s ← str; let a ← opt int; let o ← int
+                      pure (n, q, d, s, a, o)) rest).map fun (n, q, d, s, a, o) =>
+      match transposeNoteCall n q d s a o with
+      | .assertion => "A"
+      | .keyError => "K"
+      | .moved s' a' o' => fmtSpelling (s', a', o')
+  | "tnf" :: rest =>  -- transpose_note(step, alter, Interval(number, quality[, direction])): number quality direction|- step alter
+    orErr <| (run (do let n ← int; let q ← str; let d ← opt str; let s ← str; let a ← int
+                      pure (n, q, d, s, a)) rest).bind fun (n, q, d, s, a) =>
+      ((match d with
+        | some d => mkInterval n q d
+        | none => mkIntervalDefault n q).bind fun iv => transposeNoteFn s a iv).map fun (s', a') => fmtTuple [s', fmtInt a']
+  | "ivs" :: rest =>  -- Interval(number, quality, direction).semitones: A | K | size
+    orErr <| (run (do let n ← int; let q ← str; let d ← str; pure (n, q, d)) rest).map fun (n, q, d) =>
+      match mkInterval n q d with
+      | none => "A"
+      | some iv => match iv.semitones with
+        | none => "K"
+        | some z => fmtInt z
   | _ => "bad-request"
 
 def main : IO Unit := mainLoop handle
